@@ -23,6 +23,7 @@ enum Ev {
     Propose(usize), // index into the block family
     Batch(usize),   // batch 0 / 1 delivered on the mempool port
     Timer,
+    Tc(u64), // a valid TC for round r (all three others claim the genesis QC)
 }
 
 struct Family {
@@ -73,6 +74,7 @@ fn run_one(w: &World, t: usize, payloads: &[u8], seq: &[Ev]) -> (Vec<(String, St
     let mut commits = 0;
     let mut requests = 0;
     let mut voted: BTreeSet<Digest> = BTreeSet::new();
+    let mut max_qc_voted: u64 = 0;
     let needs_ack = |f: &crate::driver::Frame| {
         let port = f.dst.port();
         if port >= MEMPOOL_PORT0 {
@@ -91,6 +93,11 @@ fn run_one(w: &World, t: usize, payloads: &[u8], seq: &[Ev]) -> (Vec<(String, St
             }
             Ev::Batch(k) => node.deliver(MEMPOOL_PORT0 + t as u16, &fam.batches[*k]),
             Ev::Timer => node.fire_timer(),
+            Ev::Tc(r) => {
+                let others: Vec<usize> = (0..4).filter(|i| *i != t).collect();
+                let m = ConsensusMessage::TC(w.tc(*r, &others.iter().map(|o| (*o, 0)).collect::<Vec<_>>()));
+                node.deliver(CONSENSUS_PORT0 + t as u16, &bincode::serialize(&m).unwrap());
+            }
         }
         let frames = node.settle(&needs_ack);
         let store_has = |node: &Node, d: &Digest| node.mem.as_ref().unwrap().lock().unwrap().contains_key(&d.to_vec());
@@ -109,11 +116,21 @@ fn run_one(w: &World, t: usize, payloads: &[u8], seq: &[Ev]) -> (Vec<(String, St
                     votes += 1;
                     voted.insert(v.hash.clone());
                     if let Some(b) = by_digest.get(&v.hash) {
+                        max_qc_voted = max_qc_voted.max(b.qc.round);
                         for d in &b.payload {
                             if !store_has(&node, d) {
                                 bad.push(("vote-without-payload".into(), format!("step {} ({:?}): the node voted for the round-{} block although batch {:?} of its payload is not in its store", i, ev, b.round, d)));
                             }
                         }
+                    }
+                }
+            }
+        }
+        for f in &frames {
+            if f.dst.port() < MEMPOOL_PORT0 {
+                if let Ok(ConsensusMessage::Timeout(tm)) = bincode::deserialize::<ConsensusMessage>(&f.bytes) {
+                    if tm.author == my && tm.high_qc.round < max_qc_voted {
+                        bad.push(("timeout-hqc-below-voted".into(), format!("step {} ({:?}): the node's timeout for round {} carries a QC of round {} although it voted for a block whose QC is of round {}", i, ev, tm.round, tm.high_qc.round, max_qc_voted)));
                     }
                 }
             }
@@ -236,7 +253,7 @@ pub fn replay(v: &serde_json::Value) -> i32 {
     for o in r["events"].as_array().cloned().unwrap_or_default() {
         let o = o.as_str().unwrap_or("").to_string();
         let num = |s: &str| s.chars().filter(|c| c.is_ascii_digit()).collect::<String>().parse::<usize>().unwrap_or(0);
-        let e = if o.starts_with("Propose") { Ev::Propose(num(&o)) } else if o.starts_with("Batch") { Ev::Batch(num(&o)) } else { Ev::Timer };
+        let e = if o.starts_with("Propose") { Ev::Propose(num(&o)) } else if o.starts_with("Batch") { Ev::Batch(num(&o)) } else if o.starts_with("Tc") { Ev::Tc(num(&o) as u64) } else { Ev::Timer };
         seq.push(e);
     }
     let w = World::new(&[1, 1, 1, 1]);
@@ -251,4 +268,60 @@ pub fn replay(v: &serde_json::Value) -> i32 {
     } else {
         1
     }
+}
+
+/// C10 on the payload-resumed path: proposals whose batches are missing, batch arrivals, TCs and
+/// the timer, on one real full node; every timeout must carry a QC at least as high as the QC of
+/// any block the node voted for.
+pub fn c10_payload_paths(rep: &mut Report, tier: Tier) {
+    let w = World::new(&[1, 1, 1, 1]);
+    let t = 0usize;
+    let payload_sets: Vec<Vec<u8>> = tier.pick(vec![vec![0, 1, 0, 0]], vec![vec![0, 1, 0, 0], vec![1, 1, 0, 0], vec![0, 1, 1, 0]]);
+    let alphabet = [Ev::Propose(0), Ev::Propose(1), Ev::Propose(2), Ev::Batch(0), Ev::Tc(1), Ev::Tc(2), Ev::Timer];
+    let maxlen = tier.pick(5usize, 6usize);
+    fn rec(len: usize, a: &[Ev], cur: &mut Vec<Ev>, out: &mut Vec<Vec<Ev>>) {
+        if cur.len() == len {
+            out.push(cur.clone());
+            return;
+        }
+        for e in a {
+            if cur.last() == Some(e) && !matches!(e, Ev::Timer) {
+                continue;
+            }
+            cur.push(*e);
+            rec(len, a, cur, out);
+            cur.pop();
+        }
+    }
+    let mut seqs = Vec::new();
+    rec(maxlen, &alphabet, &mut Vec::new(), &mut seqs);
+    let mut jobs = Vec::new();
+    for p in 0..payload_sets.len() {
+        for s in 0..seqs.len() {
+            jobs.push((p, s));
+        }
+    }
+    let results = par_map(jobs.len(), ncpu(), |i| {
+        let (p, s) = jobs[i];
+        run_one(&w, t, &payload_sets[p], &seqs[s])
+    });
+    let mut steps = 0u64;
+    let mut votes = 0usize;
+    let mut reported = false;
+    for (i, (bad, st, (v, _, _))) in results.into_iter().enumerate() {
+        steps += st;
+        votes += v;
+        for (sig, what) in bad {
+            if sig == "timeout-hqc-below-voted" && !reported {
+                reported = true;
+                let (p, s) = jobs[i];
+                rep.violation("timeout:hqc-below-voted".into(), format!("[full node, payloads {:?} events {:?}] {}", payload_sets[p], seqs[s], what), json!({"engine":"seq-full","node":t,"payload_masks":payload_sets[p],"events":seqs[s].iter().map(|e| format!("{:?}", e)).collect::<Vec<_>>()}));
+            }
+        }
+    }
+    println!("  full node (payload-resumed paths): executions={} events={} votes observed={}", jobs.len(), steps, votes);
+    rep.add("states", jobs.len() as u64);
+    rep.add("transitions", steps);
+    rep.add("traces_validated_against_impl", jobs.len() as u64);
+    rep.set("full_node_payload_paths", json!({"executions": jobs.len(), "sequence_length": maxlen, "alphabet": "proposals r1..r3 (payload assignments as listed), batch 0 arrival, TC(1), TC(2), timer", "payload_assignments": payload_sets, "votes_observed": votes}));
 }
